@@ -96,6 +96,37 @@ Theorem C19_dataset_coords_union : forall ds,
 Proof. exact ds_coords_union. Qed.
 Print Assumptions C19_dataset_coords_union.
 
+(* the property's coordinate clauses on the merged Dataset (what xarray_dataset_from_results and
+   load_xarray_dataset hand to xr.merge): a visible one-dimensional array x carried along axis k to a
+   computed output o of the run is a source of a Dataset coordinate on exactly (k,) and of no Dataset
+   coordinate on other axes; two such arrays are levels of one coordinate named by the ":"-join *)
+Theorem C19_dataset_coord_on_exact_axis : forall specs inputs outputs li ds o ms k x,
+  NoDup (out_names specs) -> consistent (all_aspecs specs) = true ->
+  forallb wf_aspec (all_aspecs specs) = true ->
+  (forall m a, In m specs -> In a (outs m) -> no_colon_axes a) ->
+  dataset_vars specs inputs outputs li = Ok ds ->
+  computed_by specs o = Some ms -> In o outputs ->
+  one_dimensional specs x -> visible inputs li x = true ->
+  In x (carried (trace_fuel specs) specs o k) ->
+  (exists c, In c (ds_coords ds) /\ co_axes c = [k] /\ In x (co_srcs c))
+  /\ (forall c, In c (ds_coords ds) -> In x (co_srcs c) -> co_axes c = [k]).
+Proof. exact dataset_coord_on_exact_axis. Qed.
+Print Assumptions C19_dataset_coord_on_exact_axis.
+
+Theorem C19_dataset_zipped_multiindex : forall specs inputs outputs li ds o ms k x z,
+  NoDup (out_names specs) -> consistent (all_aspecs specs) = true ->
+  forallb wf_aspec (all_aspecs specs) = true ->
+  (forall m a, In m specs -> In a (outs m) -> no_colon_axes a) ->
+  dataset_vars specs inputs outputs li = Ok ds ->
+  computed_by specs o = Some ms -> In o outputs ->
+  one_dimensional specs x -> visible inputs li x = true ->
+  one_dimensional specs z -> visible inputs li z = true ->
+  In x (carried (trace_fuel specs) specs o k) -> In z (carried (trace_fuel specs) specs o k) -> x <> z ->
+  exists c, In c (ds_coords ds) /\ co_axes c = [k] /\ In x (co_srcs c) /\ In z (co_srcs c)
+            /\ co_name c = join (s ":") (co_srcs c).
+Proof. exact dataset_zipped_multiindex. Qed.
+Print Assumptions C19_dataset_zipped_multiindex.
+
 (* selecting by coordinate value.  `sel_label` is the specification of label based selection on a
    one-dimensional coordinate (look the value up, slice the variable at the position found); the lookup
    itself is xarray's (observed by the harness on every coordinate value, not modelled).
@@ -203,7 +234,10 @@ Example C19_example_hypotheses :
   /\ coords_of ex_specs inputs outputs true (s "w")
      = Ok [ {| co_name := s "x:z"; co_axes := [s "i"]; co_srcs := [s "x"; s "z"] |};
             {| co_name := s "u"; co_axes := [s "j"]; co_srcs := [s "u"] |} ]
-  /\ dims_of ex_specs (s "w") = Ok [s "i"; s "j"].
+  /\ dims_of ex_specs (s "w") = Ok [s "i"; s "j"]
+  /\ (forall m a, In m ex_specs -> In a (outs m) -> no_colon_axes a)
+  /\ is_ok (dataset_vars ex_specs inputs outputs true) = true
+  /\ computed_by ex_specs (s "r") <> None.
 Proof.
   cbv zeta. repeat split.
   - apply nodup_str_NoDup. reflexivity.
@@ -211,6 +245,10 @@ Proof.
   - intros a Ha E. vm_compute in Ha. repeat (destruct Ha as [<-|Ha]; [try discriminate E; reflexivity|]). destruct Ha.
   - vm_compute. auto.
   - vm_compute. auto.
+  - intros m a Hm Ha i. vm_compute in Hm.
+    repeat (destruct Hm as [<-|Hm]; [cbn in Ha; destruct Ha as [<-|[]]; destruct i as [|[|[|i]]]; cbn; discriminate|]).
+    destruct Hm.
+  - vm_compute. discriminate.
 Qed.
 
 (* non-vacuity of the selection theorems: a 2x3 variable with distinct labels on its second dimension *)
